@@ -52,7 +52,7 @@ EvReset(ev) ==
 \* observed effect at node n equals the effect of the specification's step
 Same(n, ev, old) ==
     /\ adm'[n] = ToSet(ev.adm)
-    /\ ("parked" \in DOMAIN ev) => parked'[n] = ToSet(ev.parked)
+    /\ ("parked" \in DOMAIN ev) => {q[1] : q \in parked'[n]} = ToSet(ev.parked)
     \* in-flight messages are a set in the specification: a message equal to one already in flight adds nothing
     /\ msgs' = old \cup LMsgs(ev.new)
 
@@ -87,11 +87,11 @@ EvAbsorb(ev) ==
 \* a parent request answered by a peer, followed by the requester's AddLeaf of the parent
 EvGet(ev) ==
     LET n == ev.from
-        cs == {c \in parked[n] : Parent[c] = ev.want /\ ev.want \notin adm[n]} IN
+        cs == {c \in PI(n) : Parent[c] = ev.want /\ ev.want \notin adm[n]} IN
     IF ev.res = "ok" /\ cs # {}
     THEN \E c \in cs : Pull(n, c) /\ obs' = [conf |-> Same(n, ev, msgs) /\ ev.want \in adm[ev.to], a |-> ev.a]
     ELSE /\ UNCHANGED vars
-         /\ obs' = [conf |-> /\ adm[n] = ToSet(ev.adm) /\ parked[n] = ToSet(ev.parked)
+         /\ obs' = [conf |-> /\ adm[n] = ToSet(ev.adm) /\ PI(n) = ToSet(ev.parked)
                              /\ (ev.res = "ok" => ev.want \in adm[ev.to]) /\ (ev.res = "err" => ev.want \notin adm[ev.to])
                              /\ ev.new = <<>>, a |-> ev.a]
 
@@ -99,10 +99,10 @@ EvGet(ev) ==
 EvRetry(ev) ==
     LET n == ev.n IN
     IF ev.item \in Item /\ ENABLED Retry(n, ev.item)
-    THEN Retry(n, ev.item) /\ obs' = [conf |-> adm'[n] = ToSet(ev.adm) /\ parked'[n] = ToSet(ev.parked), a |-> ev.a]
+    THEN Retry(n, ev.item) /\ obs' = [conf |-> adm'[n] = ToSet(ev.adm) /\ {q[1] : q \in parked'[n]} = ToSet(ev.parked), a |-> ev.a]
     ELSE IF ev.item \in Item /\ ENABLED RetryDrop(n, ev.item)
-    THEN RetryDrop(n, ev.item) /\ obs' = [conf |-> adm'[n] = ToSet(ev.adm) /\ parked'[n] = ToSet(ev.parked), a |-> ev.a]
-    ELSE UNCHANGED vars /\ obs' = [conf |-> adm[n] = ToSet(ev.adm) /\ parked[n] = ToSet(ev.parked), a |-> ev.a]
+    THEN RetryDrop(n, ev.item) /\ obs' = [conf |-> adm'[n] = ToSet(ev.adm) /\ {q[1] : q \in parked'[n]} = ToSet(ev.parked), a |-> ev.a]
+    ELSE UNCHANGED vars /\ obs' = [conf |-> adm[n] = ToSet(ev.adm) /\ PI(n) = ToSet(ev.parked), a |-> ev.a]
 
 EvForge(ev) ==
     LET gs == LGs(ev.gs) IN
@@ -127,7 +127,7 @@ EvExpire(ev) ==
 
 EvQuiesce(ev) ==
     /\ UNCHANGED vars
-    /\ obs' = [conf |-> /\ \A n \in Honest : adm[n] = ToSet(ev.state[n].adm) /\ parked[n] = ToSet(ev.state[n].parked)
+    /\ obs' = [conf |-> /\ \A n \in Honest : adm[n] = ToSet(ev.state[n].adm) /\ PI(n) = ToSet(ev.state[n].parked)
                         /\ (ev.inflight = 0 <=> msgs = {}), a |-> ev.a]
 
 TNext ==
@@ -157,9 +157,9 @@ C11_AllReachedAtEnd ==
     AtEnd => \A i \in orig : Origin[i] \in Honest => \A n \in HonestReach(Origin[i]) : i \in adm[n]
 C11_AllReachedAtEndModuloF13 ==
     AtEnd => \A i \in orig, n \in Honest : (Origin[i] \in Honest /\ n \in HonestReach(Origin[i]) /\ i \notin adm[n]) =>
-        \E r \in Honest : r # Origin[i] /\ ((i \in adm[r] /\ sent[r][i] = 0) \/ i \in parked[r])
+        \E r \in Honest : r # Origin[i] /\ ((i \in adm[r] /\ sent[r][i] = 0) \/ i \in PI(r))
 C12_AtEndModuloF14 ==
     AtEnd => \A i \in orig, n \in Honest : (Origin[i] \in Honest /\ n \in HonestReach(Origin[i]) /\ i \notin adm[n]) =>
-        (i \in flash[n] /\ i \notin parked[n])
+        (i \in flash[n] /\ i \notin PI(n))
 Accepted == TLCGet("stats").diameter = Len(TLog) + 1
 =============================================================================
